@@ -162,8 +162,8 @@ def _rule_R18(text, args):
     # (Vec::extend over iterator adapters is outside Verus; the two std behaviours are bound to trusted stubs:
     #  append the elements of E in reverse order / in order)
     n = 0
-    rx1 = re.compile(r"(?P<x>" + IDENT + r")\.extend\(\s*(?P<e>[^;]*?)\.iter\(\)\.rev\(\)\.copied\(\)\s*\)\s*;")
-    text, k = rx1.subn(lambda m: "vstub_extend_rev(%s, %s);" % (m.group("x"), m.group("e")), text)
+    rx1 = re.compile(r"(?P<x>" + IDENT + r"(?:\." + IDENT + r"\(\))?)\.extend\(\s*(?P<e>[^;]*?)\.iter\(\)\.rev\(\)(?:\.copied\(\))?\s*\)\s*;")
+    text, k = rx1.subn(lambda m: "vstub_extend_rev(%s, %s%s);" % (m.group("x"), "&" if re.fullmatch(IDENT, m.group("e").strip()) else "", m.group("e")), text)
     n += k
     rx2 = re.compile(r"(?P<x>" + IDENT + r")\.extend\(\s*(?P<e>" + IDENT + r")\s*\)\s*;")
     text, k = rx2.subn(lambda m: "vstub_extend_all(%s, %s);" % (m.group("x"), m.group("e")), text)
